@@ -36,7 +36,7 @@ fixed('C15', '12a4608', 'quit inside the Markov level of the FINAL pre-terminal 
 
 fixed('C12', '12a4608', 'quit inside the Markov level of the FINAL pre-terminal of the run: the queue is empty afterwards and the "Done" path returned without saving, so --load restarted the session from the beginning (seen from C12: an explicit quit that does not save the session state)', {'ruleset': 'base structures D1/M/O1 where the least probable pre-terminal is an OMEN level', 'cut': 'any j inside that level'}, 'F-C15b')
 fixed('C05', 'c17c8e5', 'password containing U+0130 (the only character whose lower() is longer than itself): e-mail / website / alpha detectors sliced the original string with offsets computed on the lower-cased copy -> empty or mis-aligned segments, wrong length labels, bogus multi-word splits', {'password': '\u0130@a.comx', 'segments': "[('\u0130@a.com','E'),('','O0')]"}, 'F-C05')
-finding('C05', 'keyboard-walk-recursion-depth', 'password made of ~1000 separate keyboard walks: detect_keyboard_walk recurses once per walk and overflows the interpreter stack -> RecursionError aborts parsing (F-C05b); only the thorough tier generates such input', {'password': "'1qaz2wsx3edc4rfv' * 250"}, 'F-C05b')
+fixed('C05', '15df948', 'password made of ~1000 separate keyboard walks: detect_keyboard_walk recurses once per walk and overflowed the default recursion limit -> RecursionError aborted parsing / the training run', {'password': "'1qaz2wsx3edc4rfv' * 250"}, 'F-C05b')
 
 fixed('C13', 'ed5a5e9', 'candidate containing a letter whose case mapping is not one-to-one (title-case U+01C5, capital sharp s U+1E9E, ...): the scorer lower-cased + masked and returned p > 0 although the guesser can only emit lower()/upper() of the stored word, never the candidate itself', {'training': ['\u01c5ungla'], 'candidate': '\u01c5ungla'}, 'F-C13')
 
